@@ -117,8 +117,12 @@ def status_check(ex, prop=ID, sub=None):
         rt = ex.ref_transform()
         wv, wc, wo = rt.wv, rt.wc, rt.wo
         fin = ex.final_iterate()
-        if fin is not None:
+        if fin is not None and fin.x.size == rt.N:
             xi = fin.x
+        elif fin is not None:
+            # the code's internal problem does not have the shape of the reference reformulation (C04's subject):
+            # judge the returned point itself, with the slacks at their best values
+            xi, _ = rt.to_internal(r.x, r.y)
         else:
             xi, _ = rt.to_internal(ex.x0, ex.y0)
         tol = prm.opt_tol
